@@ -176,10 +176,53 @@ def linear(e, binds, sign=1, acc=None):
     return None
 
 
+_CUR_PROG = [None]      # the program the running rule looks at (set by Program-aware rules; used to inline tiny helpers)
+
+
+def _inline_call(e):
+    """`span(a, l)` where `fn span(start, len) -> Range<usize> { start..start + len }` is a private one-expression
+    helper: the helper's body with its parameters replaced by the arguments.  Anything else: e itself."""
+    prog = _CUR_PROG[0]
+    e0 = unwrap(e)
+    if prog is None or not (isinstance(e0, dict) and e0.get("k") == "call"):
+        return e
+    f = unwrap(e0["f"])
+    res = (f.get("res") or {}) if isinstance(f, dict) and f.get("k") == "path" else {}
+    if not res.get("path") or res.get("dk", "") not in ("Fn", "AssocFn"):
+        return e
+    g = prog.fn(res["path"])
+    if g is None:
+        c = [x for x in prog.find(res["path"]) if x.hir]
+        g = c[0] if len(c) == 1 else None
+    if g is None or not g.hir or not g.hir.get("body") or len(g.hir["params"]) != len(e0["args"]):
+        return e
+    body = unwrap(g.hir["body"])
+    for _ in range(3):
+        if isinstance(body, dict) and body.get("k") == "block" and not body["b"]["stmts"] and body["b"].get("expr"):
+            body = unwrap(body["b"]["expr"])
+    if not (isinstance(body, dict) and body.get("k") == "struct" and body.get("adt") == "std::ops::Range"):
+        return e
+    amap = {}
+    for pp, a in zip(g.hir["params"], e0["args"]):
+        if pp["pat"].get("k") != "bind":
+            return e
+        amap[pp["pat"]["id"]] = a
+
+    def sub(n):
+        if isinstance(n, dict):
+            if n.get("k") == "path" and n.get("res", {}).get("k") == "local" and n["res"]["id"] in amap:
+                return amap[n["res"]["id"]]
+            return {k: sub(v) for k, v in n.items()}
+        if isinstance(n, list):
+            return [sub(x) for x in n]
+        return n
+    return sub(body)
+
+
 def range_desc(e, binds, lets=None):
     """(start field, len field or None) of a range literal `a..a+l` / `a..a` built from op fields.
     `lets` ({local id: initialiser}) lets a range that was first bound to a local be looked through."""
-    e = unwrap(e)
+    e = unwrap(_inline_call(e))
     hops = 0
     while lets and isinstance(e, dict) and e.get("k") == "path" and e.get("res", {}).get("k") == "local" \
             and e["res"]["id"] in lets and hops < 5:
@@ -280,6 +323,19 @@ def rule_F1(prog):
         if t["dest"]["l"] == 0 and not t["dest"]["proj"]:
             c = m.callee(t)
             chain = ("call", c["path"], [m.resolve_operand(a) for a in t["args"]])
+    def peel(term, depth=0):
+        """look through locals that merely name an intermediate `into_inner()` result"""
+        term = G.strip(term)
+        if isinstance(term, tuple) and term and term[0] == "call":
+            return ("call", term[1], [peel(a, depth + 1) for a in term[2]])
+        if isinstance(term, tuple) and term and term[0] == "local" and isinstance(term[2], int) and term[2] > m.arg_count and depth < 8:
+            sd = m.single_def(term[2])
+            if sd is not None and sd[2] == "call" and (m.callee(sd[3]) or {}).get("path", "").endswith(("::into_inner", "::into_ops")):
+                cal = m.callee(sd[3])
+                return ("call", cal["path"], [peel(m.resolve_operand(a), depth + 1) for a in sd[3]["args"]])
+        return term
+    if chain:
+        chain = peel(chain)
     s = term_str(chain) if chain else "?"
     ok = bool(chain) and re.match(r"^into_ops\(into_inner\(into_inner\((\w+)\)\)\)$", s) is not None
     if ok and hook_local and hook_local[0] == "local":
@@ -478,9 +534,10 @@ def rule_F2(prog):
                 if ints and ints[0] not in ("u32", "u64", "usize", "u128", "i64", "i128"):
                     problems.append("IdentifyDistinct::<%s>: ids wrap around after %s distinct tokens" % (
                         ints[0], {"u8": "256", "u16": "65536", "i8": "128", "i16": "32768", "i32": "2^31"}.get(ints[0], "few")))
+        fn_lets = _lets(fn)
         for c in caps:
             a = [origin(x) for x in c["args"]]
-            if not a or a[0] != "self." + alg_field:
+            if not a or (a[0] != "self." + alg_field and origin_deep(c["args"][0], fn_lets) != "self." + alg_field):
                 problems.append("capture_diff_deadline algorithm argument = %s" % (a[0] if a else "?"))
         r.ob(not problems, "TextDiffConfig::diff: TextDiff literal and %d capture calls: %s" % (len(caps), problems or "ok"))
         if problems:
@@ -793,6 +850,7 @@ def rule_F3(prog):
                          "apply_to_hook (same-named hook method, fields in the method's parameter order), "
                          "DiffOp::iter_slices and TextDiffRemapper::iter_slices (Equal: old slice, Delete: old, Insert: "
                          "new, Replace: delete-old then insert-new; the two copies are identical)")
+    _CUR_PROG[0] = prog
     # as_tag_tuple
     for fn in prog.find("types::DiffOp::as_tag_tuple"):
         ms = [x for x in op_matches(fn) if set(x[1]) >= set(OP_FIELDS)]
@@ -1051,6 +1109,33 @@ def _norm_loop(node, local_ids, expand_lets=True):
                 return go(n["x"], depth + 1)
             if k == "block" and not n["b"]["stmts"] and n["b"].get("expr"):
                 return go(n["b"]["expr"], depth + 1)
+            # a clone of a value is the value; `.start`/`.end`/`.len()` of a range literal (possibly named by a `let`) are
+            # its parts (`let tail = e - l..e; .. tail.start .. tail.len()` reads `e - l` and `l`)
+            if k == "mcall" and n.get("name") == "clone" and not n.get("args") and depth < 40:
+                return go(n["recv"], depth + 1)
+            if depth < 40 and ((k == "field" and n.get("name") in ("start", "end")) or (k == "mcall" and n.get("name") == "len" and not n.get("args"))):
+                base = unwrap(n["base"] if k == "field" else n["recv"])
+                hops = 0
+                while isinstance(base, dict) and hops < 6:
+                    if base.get("k") == "path" and base.get("res", {}).get("k") == "local" and base["res"]["id"] in lets:
+                        base = unwrap(lets[base["res"]["id"]])
+                    elif base.get("k") == "mcall" and base.get("name") == "clone" and not base.get("args"):
+                        base = unwrap(base["recv"])
+                    elif base.get("k") in ("addrof", "droptemps") and base.get("x") is not None:
+                        base = unwrap(base["x"])
+                    else:
+                        break
+                    hops += 1
+                if isinstance(base, dict) and base.get("k") == "struct" and base.get("adt") == "std::ops::Range":
+                    fe = {f["name"]: f["e"] for f in base["fields"]}
+                    if k == "field" and n["name"] in fe:
+                        return go(fe[n["name"]], depth + 1)
+                    if k == "mcall" and "start" in fe and "end" in fe:
+                        st_, en_ = unwrap(fe["start"]), unwrap(fe["end"])
+                        if isinstance(st_, dict) and st_.get("k") == "binary" and st_["op"] == "-" and go(st_["l"], depth + 1) == go(en_, depth + 1):
+                            return go(st_["r"], depth + 1)
+                        if isinstance(en_, dict) and en_.get("k") == "binary" and en_["op"] == "+" and go(en_["l"], depth + 1) == go(st_, depth + 1):
+                            return go(en_["r"], depth + 1)
             zero_cmp = False
             if k == "binary" and n.get("op") == ">":
                 rz = unwrap(n.get("r"))
@@ -1668,6 +1753,22 @@ def origin_deep(e, lets, depth=0):
         return origin_deep(lets[e["res"]["id"]], lets, depth + 1)
     k = e.get("k")
     if k == "field":
+        if e["name"] in ("start", "end"):
+            # `.start` / `.end` of a range literal (possibly named by a `let`, possibly cloned) is that part of the literal
+            base = unwrap(e["base"])
+            hops = 0
+            while isinstance(base, dict) and hops < 6:
+                if base.get("k") == "path" and base.get("res", {}).get("k") == "local" and base["res"]["id"] in lets:
+                    base = unwrap(lets[base["res"]["id"]])
+                elif base.get("k") == "mcall" and base.get("name") == "clone" and not base.get("args"):
+                    base = unwrap(base["recv"])
+                else:
+                    break
+                hops += 1
+            if isinstance(base, dict) and base.get("k") == "struct" and base.get("adt") == "std::ops::Range":
+                fe = {f["name"]: f["e"] for f in base["fields"]}
+                if e["name"] in fe:
+                    return origin_deep(fe[e["name"]], lets, depth + 1)
         return origin_deep(e["base"], lets, depth + 1) + "." + e["name"]
     if k == "mcall":
         return "%s.%s(%s)" % (origin_deep(e["recv"], lets, depth + 1), e["name"],
@@ -2943,6 +3044,16 @@ def rule_F28(prog):
             if not (nf and nf[0] in ("eq", "ne") and len(nf[1]) == 1 and list(nf[1].values()) == [1] and
                     list(nf[1])[0] in used and nf[2] in (0, 1)):
                 bad.append((o, n.get("line", fn.line)))
+        # the same decisions written as `match len { 0 => .., 1 => .., _ => .. }`: arms are single literals or the wildcard
+        for mn in find_nodes(fn.hir["body"], lambda n: n["k"] == "match"):
+            sc = unwrap(mn["scrut"])
+            if not (isinstance(sc, dict) and sc.get("k") == "path" and sc.get("res", {}).get("name") in len_locals):
+                continue
+            for a in mn["arms"]:
+                p_ = a["pat"]
+                kind = p_.get("k")
+                if a.get("guard") is not None or not (kind in ("wild", "bind") or (kind == "expr" and p_.get("lit") is not None)):
+                    bad.append(("match arm `%s`%s" % (p_.get("src", kind), " with a guard" if a.get("guard") is not None else ""), p_.get("line", fn.line)))
         r.ob(not bad, "hunk range Display: length tests %s" % ("are plain equalities" if not bad else bad))
         if bad:
             r.find(fn.path, "range-format", "the hunk range is formatted under the condition `%s`: the unified format depends on "
@@ -3056,6 +3167,143 @@ def rule_F30(prog):
                        "examined part and again outside it becomes an anchor although it is not unique" % (
                            seq, rng[:60], want or "?", " (the parameter is modified before)" if want in modified else ""),
                        file=fn.file, line=c["line"])
+    return r
+
+
+# ---------------------------------------------------------------- F31: the slide loops stop only when nothing can be shifted
+def rule_F31(prog):
+    r = RuleResult("F31", "a change slides as far as it can: in the (Insert|Delete, Equal) arms of shift_diff_ops_up/down every `break` "
+                          "(and `return`) is reached only with the measured common suffix/prefix length known to be zero (else branch "
+                          "of `len > 0`, then branch of `len == 0`, `0 =>` arm); after a non-zero step the loop measures again")
+    for path in ("algorithms::compact::shift_diff_ops_up", "algorithms::compact::shift_diff_ops_down"):
+        for fn in prog.find(path):
+            if not fn.hir or not fn.hir.get("body"):
+                continue
+            lets = _lets(fn)
+            seen_arms = set()
+            for tags, arm, _ in _tag_pair_arms(fn):
+                if not (tags[1] == "Equal" and tags[0] in ("Insert", "Delete")):
+                    continue
+                body = arm["body"]
+                if id(body) in seen_arms:
+                    continue
+                seen_arms.add(id(body))
+                # the locals bound to the measured length in this arm
+                measured = set()
+                for st in find_nodes(body, lambda n: n.get("k") == "let" and isinstance(n.get("pat"), dict) and n["pat"].get("k") == "bind" and n.get("init")):
+                    init = unwrap(st["init"])
+                    if isinstance(init, dict) and init.get("k") == "call" and origin(init["f"]).rsplit("::", 1)[-1] in ("common_suffix_len", "common_prefix_len"):
+                        measured.add(st["pat"]["id"])
+                if not measured:
+                    continue
+                r.instances += 1
+                bad = []
+
+                def is_measured(e):
+                    e = unwrap(e)
+                    hops = 0
+                    while isinstance(e, dict) and e.get("k") == "path" and e.get("res", {}).get("k") == "local" and hops < 4:
+                        if e["res"]["id"] in measured:
+                            return True
+                        nxt = lets.get(e["res"]["id"])
+                        if nxt is None:
+                            return False
+                        e = unwrap(nxt)
+                        hops += 1
+                    return False
+
+                def zero_known(cond, branch_is_then):
+                    """does taking this branch of `if cond` establish measured == 0 ?"""
+                    c = unwrap(cond)
+                    if not isinstance(c, dict):
+                        return False
+                    if c.get("k") == "unary" and c.get("op") == "Not":
+                        return zero_known(c["x"], not branch_is_then)
+                    if c.get("k") == "binary" and c["op"] in (">", "<", ">=", "<=", "==", "!="):
+                        l, rr = unwrap(c["l"]), unwrap(c["r"])
+                        def lit(x):
+                            return isinstance(x, dict) and x.get("k") == "lit" and str(x.get("src", "")).split("_")[0].isdigit() and int(str(x["src"]).split("_")[0])
+                        def islit(x, v):
+                            return isinstance(x, dict) and x.get("k") == "lit" and re.match(r"^%d(_?usize)?$" % v, str(x.get("src", "")))
+                        op = c["op"]
+                        if is_measured(rr) and not is_measured(l):
+                            l, rr = rr, l
+                            op = {">": "<", "<": ">", ">=": "<=", "<=": ">=", "==": "==", "!=": "!="}[op]
+                        if not is_measured(l):
+                            return False
+                        if op == ">" and islit(rr, 0) or op == "!=" and islit(rr, 0) or op == ">=" and islit(rr, 1):
+                            return not branch_is_then
+                        if op == "==" and islit(rr, 0) or op == "<" and islit(rr, 1) or op == "<=" and islit(rr, 0):
+                            return branch_is_then
+                    return False
+
+                def walk(n, zero):
+                    if isinstance(n, list):
+                        for x in n:
+                            walk(x, zero)
+                        return
+                    if not isinstance(n, dict):
+                        return
+                    k = n.get("k")
+                    if k in ("closure", "loop"):
+                        return
+                    if k in ("break", "ret") and not zero:
+                        bad.append(n.get("line", arm["pat"].get("line", fn.line)))
+                        return
+                    if k == "if":
+                        walk(n["c"], zero)
+                        walk(n["t"], zero or zero_known(n["c"], True))
+                        if n.get("f") is not None:
+                            walk(n["f"], zero or zero_known(n["c"], False))
+                        return
+                    if k == "match" and is_measured(n.get("scrut")):
+                        for a in n["arms"]:
+                            p_ = a["pat"]
+                            z = isinstance(p_, dict) and p_.get("k") == "expr" and re.match(r"^0(_?usize)?$", str(p_.get("lit", "")))
+                            walk(a["body"], zero or bool(z))
+                        return
+                    for v in n.values():
+                        if isinstance(v, (dict, list)):
+                            walk(v, zero)
+
+                walk(body, False)
+                r.ob(not bad, "%s (%s, Equal): every exit of the slide loop knows the measured length is 0: %s" % (fn.name, tags[0], not bad))
+                if bad:
+                    r.find(fn.path, "early-exit:%s" % tags[0],
+                           "the (%s, Equal) arm of %s leaves the slide loop (line %d) without knowing that the measured common "
+                           "length is 0: after a partial step the next comparison may still succeed, so the change does not reach "
+                           "its final position" % (tags[0], fn.name, bad[0]), file=fn.file, line=bad[0])
+    return r
+
+
+# ---------------------------------------------------------------- F32: a slice is filed under the index of the string it was cut from
+def rule_F32(prog):
+    r = RuleResult("F32", "a slice is filed under the index of the string it was cut from: where a pair `(i, strings[j].slice(..))` "
+                          "is pushed or returned, i and j are the same value (MultiLookup::get_original_slices: a run that ends at a "
+                          "line boundary belongs to the line it came from)")
+    for fn in prog.user_fns():
+        if not fn.hir or not fn.hir.get("body") or fn.kind == "Closure" or not fn.module.startswith("text"):
+            continue
+        for tup in find_nodes(fn.hir["body"], lambda n: n["k"] == "tup" and len(n["es"]) == 2):
+            b = unwrap(tup["es"][1])
+            if not (isinstance(b, dict) and b.get("k") == "mcall" and b["name"] == "slice"):
+                continue
+            recv = unwrap(b["recv"])
+            while isinstance(recv, dict) and recv.get("k") in ("addrof", "unary") and recv.get("x") is not None:
+                recv = unwrap(recv["x"])
+            if not (isinstance(recv, dict) and recv.get("k") == "index"):
+                continue
+            a = unwrap(tup["es"][0])
+            if not (isinstance(a, dict) and str(a.get("ty", "")) == "usize"):
+                continue
+            r.instances += 1
+            ia, ij = origin(a), origin(recv["idx"])
+            ok = ia == ij
+            r.ob(ok, "%s: (%s, %s[%s].slice(..))" % (fn.path, ia, origin(recv["base"]), ij))
+            if not ok:
+                r.find(fn.path, "slice-filed-under:%s" % ia,
+                       "the pair `(%s, %s[%s].slice(..))` files a piece of string `%s` under index `%s`: the piece is attributed "
+                       "to another line than the one it was cut from" % (ia, origin(recv["base"]), ij, ij, ia), file=fn.file, line=tup.get("line", fn.line))
     return r
 
 
